@@ -158,7 +158,9 @@ fn swap_exec(h: &Swap, prefix: &[usize]) -> (sched::Execution, Result<String, (S
         for r in 0..h.records {
             let msg = format!("t{}r{}", t, r);
             let (ls, le) = (pos(&Ev::LogStart(msg.clone())).unwrap(), pos(&Ev::LogEnd(msg.clone())).unwrap());
-            let got: Vec<String> = evs.iter().filter_map(|e| match e { Ev::Deliver(m, tag) if *m == msg => Some(tag.clone()), _ => None }).collect();
+            // (the order in which a configuration serves its appenders is not fixed by any property: sets are compared)
+            let mut got: Vec<String> = evs.iter().filter_map(|e| match e { Ev::Deliver(m, tag) if *m == msg => Some(tag.clone()), _ => None }).collect();
+            got.sort();
             // configurations that may be in force for this record
             let mut allowed: Vec<char> = vec![];
             let sets: Vec<(usize, usize, char)> = h.setters.iter().enumerate().map(|(k, c)| (pos(&Ev::SetStart(k)).unwrap(), pos(&Ev::SetEnd(k)).unwrap(), *c)).collect();
@@ -279,10 +281,11 @@ fn reentrant_error(rep: &mut Report) {
             let mut handled: Vec<String> = evs.iter().filter_map(|e| match e { Ev::Handler(m) => Some(m.clone()), _ => None }).collect();
             handled.sort();
             // the wording is free (an error may arrive wrapped in context): each of the two appender
-            // errors must be recognisable in exactly one handed-over error
-            let ok = handled.len() == 2
-                && handled.iter().filter(|m| m.contains("fail-G")).count() == 1
-                && handled.iter().filter(|m| m.contains("failing-after-swap")).count() == 1;
+            // errors must be recognisable in exactly one handed-over error (one hand-over may carry both)
+            let ok = !handled.is_empty()
+                && handled.iter().map(|m| m.matches("fail-G").count().min(1)).sum::<usize>() == 1
+                && handled.iter().map(|m| m.matches("failing-after-swap").count().min(1)).sum::<usize>() == 1
+                && handled.iter().all(|m| m.contains("fail-G") || m.contains("failing-after-swap"));
             if !ok {
                 rep.violation(
                     "reentrant:errors-not-handled-by-the-configuration-that-routed-the-record",
@@ -328,7 +331,11 @@ fn reentrancy(rep: &mut Report) {
             Err(_) => rep.violation("reentrant:deadlock", format!("{}: a log call that triggers set_config from inside did not return within 10 s", case), case),
             Ok((Err(p), _)) => rep.violation(format!("reentrant:panic:{}", panic_site(&p)), p, case),
             Ok((Ok(()), evs)) => {
-                let of = |m: &str| -> Vec<String> { evs.iter().filter_map(|e| match e { Ev::Deliver(x, t) if x == m => Some(t.clone()), _ => None }).collect() };
+                let of = |m: &str| -> Vec<String> {
+                    let mut v: Vec<String> = evs.iter().filter_map(|e| match e { Ev::Deliver(x, t) if x == m => Some(t.clone()), _ => None }).collect();
+                    v.sort();
+                    v
+                };
                 let first = of("first");
                 let second = of("second");
                 if first != vec!["R0".to_string(), "R1".into(), "R2".into()] {
